@@ -195,8 +195,8 @@ func (ex *Exec) choose(n int, conds []*Term, what string) int {
 		if c.IsFalse() {
 			continue
 		}
-		r := "sat"
-		if !(c.IsTrue() && len(ex.pc) == ex.pcAsserted && false) {
+		r := "sat" // an alternative without a condition is feasible because the path condition is
+		if !c.IsTrue() {
 			r = ex.sat(c)
 		}
 		if r == "unknown" {
